@@ -1,7 +1,7 @@
 (* C14: reader fragmentation does not change the value; reader failure is an error. *)
 Require Import EV.Base.Tac EV.Base.Bytes EV.Base.Res EV.Base.ListX.
-Require Import EV.Model.Arith64 EV.Model.Types EV.Model.Layout EV.Model.Ser EV.Model.Deser EV.Model.Header EV.Model.Typing EV.Model.IO.
-Require Import EV.Proofs.Monads EV.Proofs.Prefix EV.Proofs.IOProps.
+Require Import EV.Model.Arith64 EV.Model.Types EV.Model.Layout EV.Model.Ser EV.Model.Deser EV.Model.Header EV.Model.Typing EV.Model.IO EV.Model.Prog.
+Require Import EV.Proofs.Monads EV.Proofs.Prefix EV.Proofs.IOProps EV.Proofs.ProgP.
 
 (* read_exact -- the only way full-copy deserialization touches its reader -- over a reader that
    delivers the stream in arbitrary fragments (any sizes >= 1, any interleaving of Interrupted)
@@ -41,6 +41,45 @@ Theorem C14_incomplete_stream_is_read_error :
     forall k, k < nlen bs -> deser_full_top h t (ntake k bs) = Err ReadError.
 Proof. exact truncated_full. Qed.
 
+(* Whole values.  [prog_full_top h t] (Model/Prog.v) is Deserialize::deserialize_full written as a
+   program over its only primitive on the reader, read_exact; run on a list it IS the full-copy
+   deserializer of the model ... *)
+Theorem C14_program_is_the_deserializer :
+  forall h t input, run_list (prog_full_top h t) input 0 = deser_full_top h t input.
+Proof. exact prog_full_top_is_deser_full_top. Qed.
+
+(* ... and run against a reader that delivers the stream in ARBITRARY fragments with arbitrary
+   Interrupted interleavings (every read_exact being std's loop over the reader) it returns the
+   same value at the same position, the same error or the same panic as on the whole stream, for
+   every type and every stream -- unless the reader interrupts forever. *)
+Theorem C14_full_copy_fragmentation_invariance :
+  forall (h : hdr) (t : ty) (data : list byte) (cut : N -> N -> N) (intr : N -> bool) (fuel : nat)
+         (s' : N * N) (out : iores val),
+    run_io (stream_reader data cut intr None) fuel (prog_full_top h t) (0, 0) 0 = (s', out) ->
+    out <> INoOutcome ->
+    match deser_full_top h t data with
+    | Ok (v, rest, p') => out = IOk v p' /\ fst s' = p'
+    | Err e => out = IErr e
+    | Panic w => out = IPanic w
+    end.
+Proof. exact full_copy_fragmentation_invariance. Qed.
+
+(* A reader that fails once k bytes have been delivered: either the deserializer never needed a
+   byte at or beyond k and the result is unchanged, or the result is ReadError -- never another
+   value, never a new panic. *)
+Theorem C14_full_copy_failing_reader :
+  forall (h : hdr) (t : ty) (data : list byte) (cut : N -> N -> N) (intr : N -> bool) (k : N) (fuel : nat)
+         (s' : N * N) (out : iores val),
+    run_io (stream_reader data cut intr (Some k)) fuel (prog_full_top h t) (0, 0) 0 = (s', out) ->
+    out <> INoOutcome ->
+    out = IErr ReadError \/
+    match deser_full_top h t data with
+    | Ok (v, rest, p') => out = IOk v p' /\ p' <= k
+    | Err e => out = IErr e
+    | Panic w => out = IPanic w
+    end.
+Proof. exact full_copy_failing_reader. Qed.
+
 Example C14_example :
   let data := [1; 2; 3; 4; 5; 6; 7; 8; 9] in
   let r := stream_reader data (fun calls _ => 1 + calls mod 3) (fun c => c mod 2 =? 1) (Some 7) in
@@ -51,3 +90,6 @@ Proof. vm_compute. split; reflexivity. Qed.
 Print Assumptions C14_fragmentation_invariance.
 Print Assumptions C14_failing_reader.
 Print Assumptions C14_incomplete_stream_is_read_error.
+Print Assumptions C14_program_is_the_deserializer.
+Print Assumptions C14_full_copy_fragmentation_invariance.
+Print Assumptions C14_full_copy_failing_reader.
